@@ -170,10 +170,40 @@ def build(spec):
     p, ps = pressure_fields(spec.get("pkind", "zero"), t, v)
     cv = heat_capacity(spec.get("cv", "const"), t, v)
     vb = SimpleNamespace(pressures=p, heat_capacity=cv, v_array=v, t_array=t)
-    duck = SimpleNamespace(
+    duck = calculator_like(
+        qha_calculator=SimpleNamespace(volume_base=vb, v_array=v, t_array=t),
         v_array=v, t_array=t, freq_array=freq, mode_gamma=[vdg, gam, gam ** 2],
-        qha_input=SimpleNamespace(weights=[((0.0, 0.0, 0.1 * q), w[q]) for q in range(nq)]),
+        qha_input=SimpleNamespace(weights=[((0.0, 0.0, 0.1 * q), w[q]) for q in range(nq)], nq=nq, np=npm, na=na, nv=len(v)),
         na=na, nq=nq, np=npm, nv=len(v), static_p_array=ps,
-        qha_calculator=SimpleNamespace(volume_base=vb),
     )
     return duck, laws, w, t, v
+
+
+def calculator_like(**attrs):
+    """A REAL cij Calculator object that has not gone through __init__ (no files): the state a real run would have built
+    is set directly.  Helper methods and properties of the class stay available to the code under test, so a refactoring
+    that adds one is not a drift of the seam; attributes that the class defines as read-only properties are left to the
+    class.  Falls back to a plain namespace if the class cannot be used that way."""
+    try:
+        from cij.core.calculator import Calculator
+        obj = Calculator.__new__(Calculator)
+        obj.__dict__["qha_calculator"] = attrs["qha_calculator"]
+        for k, val in attrs.items():
+            try:
+                setattr(obj, k, val)
+            except AttributeError:
+                pass
+        for k in ("freq_array", "mode_gamma", "static_p_array", "na"):
+            if getattr(obj, k) is not attrs[k]:
+                raise TypeError(k)
+        return obj
+    except Exception:
+        return SimpleNamespace(**attrs)
+
+
+def clone(obj, **changes):
+    """shallow copy of a calculator-like object with some attributes replaced (copy.copy cannot be used on an object whose
+    class forwards unknown attributes)"""
+    attrs = dict(vars(obj))
+    attrs.update(changes)
+    return calculator_like(**attrs) if not isinstance(obj, SimpleNamespace) else SimpleNamespace(**attrs)
